@@ -151,6 +151,8 @@ def c17_case(seed, model, rep):
                 out.append((which, "truncate", rng.range(1, min(n - 1, 20))))
                 out.append((which, "truncate", n // 2))
                 out.append((which, "append", rng.pick([b" ", b"\n", b"x", b"}"])))
+                out.append((which, "append", rng.pick([b"\x00", b"\x00\x00\x00", b" " * 64])))
+                out.append((which, "truncate", rng.pick([1, 64, 640])) if n > 700 else (which, "truncate", 1))
             ck = json.loads(lock_bytes)["checksum"]
             pos = rng.below(len(ck))
             out.append(("lock", "hexedit", pos))
@@ -240,6 +242,8 @@ def c17_case(seed, model, rep):
             ("lockfile deleted", lambda: os.remove(lock_path)),
             ("lockfile of another revision", lambda: open(lock_path, "wb").write(json.dumps({"checksum": "ab" * 32}).encode())),
             ("generated file truncated", lambda: open(gen_path, "wb").write(gen_bytes[:len(gen_bytes) // 2])),
+            ("lockfile with merge-conflict junk appended", lambda: open(lock_path, "wb").write(lock_bytes + b"\n<<<<<<< HEAD\n" + lock_bytes + b"\n=======\n>>>>>>> other\n")),
+            ("lockfile pretty-printed by a formatter", lambda: open(lock_path, "wb").write(json.dumps(json.loads(lock_bytes), indent=8).encode() + b"\n\n")),
             ("generated file and lockfile deleted", lambda: (os.remove(gen_path), os.remove(lock_path))),
         ]
         for name, damage in histories:
@@ -308,6 +312,11 @@ def c18_case(seed, model, rep):
         for name, text in serialisations(cfg, rng):
             p = os.path.join(repo.dir, "Monorail.%s.json" % name)
             open(p, "wb").write(text.encode("utf-8"))
+            # a lockfile left behind by an earlier `config generate` at this path means nothing for a
+            # configuration that has no `source`
+            lockp = os.path.join(repo.dir, "Monorail.%s.lock" % name)
+            if rng.chance(1, 2):
+                open(lockp, "w").write(json.dumps({"checksum": "%064x" % rng.next()}))
             outs = []
             for api in apis:
                 pr = scen.subprocess.run([scen.MONORAIL, "-f", p] + api, cwd=repo.dir, env=repo.env(), stdin=scen.subprocess.DEVNULL,
@@ -323,6 +332,8 @@ def c18_case(seed, model, rep):
             rep.count("size_%s" % ("lt8k" if len(text.encode()) < 8192 else "gt8k"))
             rep.nontrivial_case({"seed": seed, "ser": name})
             os.remove(p)
+            if os.path.exists(lockp):
+                os.remove(lockp)
             if any(rc != 0 for rc, j, e in outs):
                 rep.oracle_fail({"kind": "a serialisation of a valid configuration is rejected", "case": case, "serialisation": name,
                                  "bytes": len(text.encode()), "results": [(rc, e) for rc, j, e in outs]})
@@ -389,6 +400,8 @@ def c18_case(seed, model, rep):
                 c2["server"] = r.cfg["server"]
                 r.write_config(json.dumps(c2, separators=(",", ":"), ensure_ascii=False))
                 v = []
+                r.commit_all("config as first serialised")
+                r.mono("checkpoint", "update")
                 for step in range(4):
                     if switch and step == 2:
                         text = dict(serialisations(c2, scen.Rng(seed)))[b[0]]
@@ -400,7 +413,8 @@ def c18_case(seed, model, rep):
                         ptr = json.load(open(os.path.join(r.out_dir, "tracking", "run.json")))["id"]
                     except (OSError, ValueError):
                         pass
-                    v.append({"rc": rc, "pointer": ptr, "dirs": obs["dirs"],
+                    rca, ja, _, _ = r.mono("analyze", "--target-groups")
+                    v.append({"rc": rc, "pointer": ptr, "dirs": obs["dirs"], "analyze": [rca, (ja or {}).get("targets"), (ja or {}).get("target_groups")],
                               "result": json.loads(json.dumps(obs["result"]).replace(r.dir, "<ROOT>")),
                               "logs": {str(k): x.hex() for k, x in (obs["logs"] or {}).items()},
                               "by_id": {str(i): (None if x is None else {str(k): y.hex() for k, y in x.items()}) for i, x in obs["by_id"].items()}})
@@ -411,8 +425,8 @@ def c18_case(seed, model, rep):
                 step = next(i for i in range(4) if views[0][i] != views[1][i])
                 rep.oracle_fail({"kind": "re-serialising the configuration in the middle of a history changed what the store APIs return",
                                  "case": case, "serialisation": b[0], "first_difference_after_run": step + 1,
-                                 "control": {k: views[0][step][k] for k in ("rc", "pointer", "dirs")},
-                                 "reserialised": {k: views[1][step][k] for k in ("rc", "pointer", "dirs")}})
+                                 "control": {k: views[0][step][k] for k in ("rc", "pointer", "dirs", "analyze")},
+                                 "reserialised": {k: views[1][step][k] for k in ("rc", "pointer", "dirs", "analyze")}})
                 return
         finally:
             twin.done()
